@@ -184,6 +184,37 @@ def check(an, rep, tier):
         rep.add('P-sentinel', 'act_two.accuracy', 'return -1 when |z2| tiny '
                 '(%s)' % r.tag(), st_, det_, line=fn.node.lineno,
                 file=mod.path)
+    # accuracy_on_data: "if I_data or y_data is not provided the function
+    # returns -1" -- by abstract execution of the three None patterns
+    from .. import interp as _interp
+    fd = prog.func('data.accuracy_on_data')
+    for what, extra in (('I_data and y_data missing',
+                         {'I_data': ('lit', None), 'y_data': ('lit', None)}),
+                        ('y_data missing',
+                         {'I_data': 'I[m,d]', 'y_data': ('lit', None)}),
+                        ('I_data missing',
+                         {'I_data': ('lit', None), 'y_data': 'f[m]'})):
+        v_ = dict(Y='tt')
+        v_.update(extra)
+        I_ = _interp.Interp(prog, {'split': dict(specs.DEFAULT_SPLIT),
+                                   'summary': dict(specs.DEFAULT_SUMMARY)})
+        try:
+            I_.run_function(fd, specs.build_args(v_, 2))
+        except Exception as e_:     # an abstract run must never look decided
+            rep.unknown('P-sentinel', 'data.accuracy_on_data', what, repr(e_))
+            continue
+        rets_ = I_.entry_returns
+        good = bool(rets_) and all(x.has_const() and x.c == -1
+                                   for x in rets_) and not I_.raises
+        bad_ = any(not (x.has_const() and x.c == -1) and x.k != 'top'
+                   for x in rets_) or (not rets_ and I_.raises)
+        rep.add('P-sentinel', 'data.accuracy_on_data', 'returns -1 with %s'
+                % what, 'ok' if good else ('violation' if bad_ else
+                                           'unknown'),
+                '' if good else 'with %s the documented sentinel -1 is not '
+                'what every path returns (returns %r, raises %r)'
+                % (what, rets_, I_.raises), line=fd.node.lineno,
+                file=fd.module.path)
     # --- V-show
     fn = prog.func('vis.show')
     txt = model.norm_src(fn.module, fn.node)
